@@ -46,7 +46,7 @@ def _dt_strategy(tier, kind):
             "nu_balance": draw(st.one_of(st.none(), st.none(), gen.floats(0.25, 4.0, 32))),
             # the largest velocity sits in one of the first / last cells of the flattened array (remainder cells of any chunked or
             # blocked reduction): [component, flat index (negative: from the end), magnitude exponent] or None
-            "tail_spike": draw(st.one_of(st.none(), st.tuples(st.integers(0, dim - 1), st.integers(-12, 11), st.integers(0, 12)).map(list))),
+            "tail_spike": draw(st.one_of(st.none(), st.tuples(st.integers(0, dim - 1), st.sampled_from([-1, -1, -2, -2, -3, -4, -6, -12, 0, 0, 1, 2, 5, 11]), st.integers(0, 12)).map(list))),
             "threads": draw(st.sampled_from([2, 2, 1, 3, 4, 5, 7])),
             "cfl": draw(gen.floats(0.01, 2.0, 32)), "prefac": draw(gen.floats(0.01, 1.0, 32)), "velocity": vel, "vkind": vk,
             # history on the SAME simulator object: the velocity is overwritten between queries (as every flow step does),
